@@ -825,6 +825,9 @@ func TestVerifC03Sys(t *testing.T) {
 			"issued in bursts with 0-300 ms pauses; outcome served / REFUSED / no reply is compared with what the last accepted access/set demands; access/list and the lists in AdGuardHome.yaml are compared with it too; "+
 			"non-trivial = the client is excluded or the name blocked under the last accepted lists; distinct by (history, stage, client, transport, question)")
 	defer func() {
+		if t.Failed() {
+			rep.Inconcl("the test function was ended by a failed assertion (see the log)")
+		}
 		if err := rep.Write(); err != nil {
 			t.Fatal(err)
 		}
